@@ -106,6 +106,16 @@ CLAIMED = {
                      "enumerates 18 instance families x rank bound 1..n+1 x tolerances (default, loose, tight and placed strictly between consecutive residual traces) x scale x "
                      "diagonal part; every terminal state (pivots, steps, exact A - S) is printed and the library's (L, permutation) must be one of them in float32 / float64; "
                      "for K + D the preconditioner's closure, operator and log-determinant must be those of (A - S) + D, and None below min_preconditioning_size."),
+    "C11": dict(engine="E4-loop-models-trace-validation", design="5/C11",
+                technique="TLA+ shape algebra and loop-control model of multi-shift MINRES (LOMinres) checked by TLC; TLC-enumerated shape cases replayed; executions of minres / contour_integral_quad / sqrt_inv_matmul recorded and validated by TLC against the clauses of C11 (Trace_C11)",
+                text="(1) spec/LOMinres.tla + MC_C11.tla: documented output shape of minres for every operator batch x right-hand side x shift tensor (leading shift dimension "
+                     "exactly when several shifts are given), and the loop control (at most min(max_iter, n + 1) + 2 iterations, convergence tests only every 10th iteration) over all "
+                     "observation sequences; three slipped variants must be rejected. (2) Every shape case plus seeded drivers (spectrum family, kappa <= 1e4, size 1..40, batches, "
+                     "preconditioners incl. rescaled ones, tolerances, zero columns, negative shifts, float32 / float64) are executed: budgets 1..n+1 give the iterates, then the "
+                     "configured call, a power-of-two rescaled call and the tight full-budget call; contour_integral_quad and sqrt_inv_matmul (with left factor) run on Dense / AddedDiag "
+                     "with and without an active pivoted-Cholesky preconditioner / Diag / ConstantDiag / Identity. TLC validates the recorded measurements (spec/Trace_C11.tla): shape, "
+                     "finiteness, zero columns, exact linear scaling, error within the stopping tolerance, residual never increasing with the budget, exactness at full budget, weighted "
+                     "solves = K^-1/2 b and K^1/2 b, M M^T = K^-1 for the quadrature map, sqrt_inv_matmul twice = solve, left-factor outputs."),
     "C12": dict(
         engine="E3-history-machines",
         technique="TLA+ model of per-object memoize caches over query/derivation/settings histories (key discipline from the live classes), exhaustive TLC histories replayed with per-step cache-validity checks",
@@ -224,7 +234,7 @@ def main():
             dict(name="E3-history-machines", path="spec/LOSettings.tla spec/LOCache.tla spec/LOPsdChol.tla harness/checks/",
                  serves_properties=sorted(k for k, v in CLAIMED.items() if v["engine"] == "E3-history-machines"),
                  kind_free_text="TLA+ state machines over event histories (ideal + implementation-shaped layers), exhaustive TLC exploration, histories replayed into / traces validated from the library"),
-            dict(name="E4-loop-models-trace-validation", path="spec/LOCG.tla spec/MC_C08.tla spec/Trace_C08.tla spec/LOLanczos.tla spec/MC_C09.tla spec/Trace_C09.tla spec/LOPivChol.tla spec/MC_C10.tla harness/checks/",
+            dict(name="E4-loop-models-trace-validation", path="spec/LOCG.tla spec/MC_C08.tla spec/Trace_C08.tla spec/LOLanczos.tla spec/MC_C09.tla spec/Trace_C09.tla spec/LOPivChol.tla spec/MC_C10.tla spec/LOMinres.tla spec/MC_C11.tla spec/Trace_C11.tla harness/checks/",
                  serves_properties=sorted(k for k, v in CLAIMED.items() if v["engine"] == "E4-loop-models-trace-validation"),
                  kind_free_text="TLA+ state machines of the iterative solvers; exhaustive TLC exploration of the models; traces recorded from the real solvers validated by TLC / results accepted only as model behaviours"),
             dict(name="E2-exact-linalg-replay", path="spec/LORational.tla spec/MC_E2.tla harness/e2.py",
